@@ -54,6 +54,23 @@ theorem bfs_congr {i₁ i₂ : Inner} (h : ∀ j pre, (i₁ j pre).parts = (i₂
   | zero => intro g; simp [bfs, hs]
   | succ n ih => intro g; simp [bfs, hs, hk, ih]
 
+theorem satRt_congr {i₁ i₂ : Inner} (h : ∀ j pre, (i₁ j pre).parts = (i₂ j pre).parts) :
+    ∀ (rest : List Part) (j : Nat) (pre : List Part), satRt i₁ j pre rest = satRt i₂ j pre rest := by
+  intro rest
+  induction rest with
+  | nil => intro j pre; rfl
+  | cons p rest ih =>
+    intro j pre
+    unfold satRt
+    simp only [h j pre, ih]
+
+theorem bfsRt_congr {i₁ i₂ : Inner} (h : ∀ j pre, (i₁ j pre).parts = (i₂ j pre).parts) :
+    ∀ (n : Nat) (g : List Fork), bfsRt i₁ n g = bfsRt i₂ n g := by
+  intro n
+  induction n with
+  | zero => intro g; simp [bfsRt, satRt_congr h]
+  | succ n ih => intro g; simp [bfsRt, satRt_congr h, ih]
+
 theorem forkOrder_congr {r₁ r₂ : List Root} {i₁ i₂ : Inner}
     (hr : RootsEquiv r₁ r₂) (hi : ∀ j pre, Elems.Equiv (i₁ j pre) (i₂ j pre)) :
     forkOrder r₁ i₁ = forkOrder r₂ i₂ := by
